@@ -36,7 +36,7 @@ def contacts(s3):
             d = np.linalg.norm(pi - pj)
             if d > 4.0:
                 continue
-            n1, n2 = R[ri].base_normal_vector, R[rj].base_normal_vector
+            n1, n2 = T.base_normal(R[ri]), T.base_normal(R[rj])
             if n1 is None or n2 is None:
                 continue
             v = pi - pj
